@@ -243,6 +243,30 @@ def handoff_bounds(cx):
     others = [c for c in cx.prog.call_sites_of("RaftLog::next_entries_since") if c.fn.crate == "raft" and c.fn is not glr and fn_name(c.fn) != "RaftLog::next_entries"]
     cx.check(not others, "single-consumer", "committed entries are produced for the application only in gen_light_ready (other callers: %s)" % [fn_name(c.fn) for c in others])
     rdf = cx.fn("RawNode::ready")
+    wfns = {s.fn.key for s in cx.prog.writes.get("RawNode.commit_since_index", []) if "stmt" in s.data}
+    cx.check(glr.key in wfns, "advance:handed-out", "handing out committed entries moves commit_since_index past them (else they are handed out again)")
+    cx.check(rdf.key in wfns, "advance:snapshot", "a Ready carrying a snapshot moves commit_since_index to the snapshot index (else entries the snapshot replaced are asked for)")
+    gr = cx.pg(rdf)
+    sw = {s.block for s in cx.prog.writes.get("RawNode.commit_since_index", []) if s.fn is rdf and "stmt" in s.data}
+    has_snap = lambda l: l[0] == "in" and l[2] == frozenset(["Some"]) and (is_f(l[1], "Unstable.snapshot") or (l[1][0] == "call" and l[1][1].endswith("unstable_snapshot")))
+    snap_lits = {l for n_ in range(len(gr.nodes)) for _, ls in gr.edges[n_] or [] for l in ls if has_snap(l)}
+    okp, ne = gr.after_edge_must_pass(lambda lits: any(has_snap(l) for l in lits), lambda b: b in sw, assume=list(snap_lits))
+    cx.check(okp and ne >= 1, "advance:snapshot:always", "whenever the Ready carries a pending snapshot the write happens")
+    gg = cx.pg(glr)
+    gw = {s.block for s in cx.prog.writes.get("RawNode.commit_since_index", []) if s.fn is glr and "stmt" in s.data}
+    some_last = lambda l: l[0] == "in" and l[2] == frozenset(["Some"]) and l[1][0] == "call" and l[1][1].endswith("::last")
+    okq, nq = gg.after_edge_must_pass(lambda lits: any(some_last(l) for l in lits), lambda b: b in gw)
+    cx.check(okq and nq >= 1, "advance:handed-out:always", "whenever committed entries are handed out the write happens")
+    # where the hand-off starts: right after the applied index the application configured
+    from .commit import ctor_sites
+    cts = ctor_sites(cx, "raw_node::RawNode")
+    cx.check(len(cts) >= 1, "start:ctor", "the RawNode constructor was found")
+    for (cf, bi, si, st) in cts:
+        e = cx.prog.A(cf).expr_rvalue(st["rv"], (bi, si))
+        d = dict(e[2])
+        v = d.get("commit_since_index", ("?",))
+        # Raft::new restores applied := Config.applied (LOGGUARD.applied restart-value), so either source is the same index
+        cx.check(is_f(v, "Config.applied") or is_f(v, "RaftLog.applied"), "start:value", "hand-off of committed entries starts right after the configured applied index (found %s)" % show(v)[:100], Site(cf, bi, si, "write"))
     for s in cx.prog.writes.get("RawNode.commit_since_index", []):
         key = cx.site_key(s, "write:commit_since_index")
         if "stmt" not in s.data:
